@@ -1068,7 +1068,19 @@ void vp_native_prop_fail(const char *m); void vp_native_assume_fail(void); void 
 #define VP_ASSUME(c) do { if (!(c)) vp_native_assume_fail(); } while (0)
 #define VP_MODEL_ASSERT(c, m) do { if (!(c)) vp_native_model_fail(m); } while (0)
 #endif
+#ifdef __CPROVER__
 #define __ll2c_new_typed(T, n) ((char*)(((n) <= sizeof(T)) ? malloc(sizeof(T)) : malloc(n)))
+#else
+/* native replay only: cbmc treats fresh heap memory as nondeterministic; natively every allocation is filled with its own byte
+   pattern, so that a counterexample that depends on an uninitialised read reproduces (two objects never share their garbage) */
+#ifndef VP_NATIVE_ALLOC_DEFINED
+#define VP_NATIVE_ALLOC_DEFINED
+#include <string.h>
+static unsigned vp_native_alloc_ctr;
+static char *vp_native_alloc(unsigned long n) { char *p = malloc(n ? n : 1); if (p) memset(p, 0xA1 + 7 * (vp_native_alloc_ctr++ % 13), n); return p; }
+#endif
+#define __ll2c_new_typed(T, n) (vp_native_alloc(((n) <= sizeof(T)) ? sizeof(T) : (n)))
+#endif
 static inline uint64_t __ll2c_ctpop64(uint64_t x){ uint64_t c=0; for(int i=0;i<64;i++) c+=(x>>i)&1; return c; }
 static inline uint32_t __ll2c_ctpop32(uint32_t x){ return (uint32_t)__ll2c_ctpop64(x); }
 static inline uint64_t __ll2c_ctlz64(uint64_t x){ uint64_t c=0; for(int i=63;i>=0;i--){ if((x>>i)&1) break; c++; } return c; }
